@@ -57,6 +57,26 @@ fn build(case: &Value) -> (Mesh<Normal3>, Surf, bool, i64) {
         }
         "capsule" => (Capsule { sectors: g("secs"), body_segments: g("segs"), cap_segments: g("caps"), radius: f("r") }.build(),
                       Surf::Capsule(f("r") as f64), true, 2),
+        "crease" => {
+            // a user profile with hard edges: a point listed twice, once with the normal of either
+            // adjoining surface (kind 0: a flat double cone with a sharp rim, 1: a flat-shaded cylinder)
+            use re::geom::vertex;
+            use re::math::{point::pt2, vec::vec2};
+            let (r, nl) = (f("r"), f("nl"));
+            let pts = if gi(case, "kind") == 0 {
+                vec![vertex(pt2(0.0, -0.3 * r), vec2(0.3 * nl, -nl)), vertex(pt2(r, 0.0), vec2(0.3 * nl, -nl)),
+                     vertex(pt2(r, 0.0), vec2(0.3 * nl, nl)), vertex(pt2(0.0, 0.3 * r), vec2(0.3 * nl, nl))]
+            } else {
+                vec![vertex(pt2(0.0, -r), vec2(0.0, -nl)), vertex(pt2(r, -r), vec2(0.0, -nl)), vertex(pt2(r, -r), vec2(nl, 0.0)),
+                     vertex(pt2(r, r), vec2(nl, 0.0)), vertex(pt2(r, r), vec2(0.0, nl)), vertex(pt2(0.0, r), vec2(0.0, nl))]
+            };
+            let l = if gi(case, "lit") == 1 {
+                Lathe { points: pts, sectors: g("secs"), capped: false, az_range: turns(0.0)..turns(1.0) }
+            } else {
+                Lathe::new(pts, g("secs"))
+            };
+            (l.build(), Surf::None, false, 0)
+        }
         _ => {
             // a partial sweep of a cylinder profile through the public az_range field; the profile
             // normals are given with length nl (they need not be unit vectors: build() normalises).
@@ -125,7 +145,10 @@ pub fn exec(case: &Value) -> Value {
             continue;
         }
         let fnv = cross(sub(pos[b], pos[a]), sub(pos[c], pos[a]));
-        let deg = len(fnv) < 1e-4 * size * size;
+        // zero area relative to the face's own edges (a thin sliver of a many-sided cap is not degenerate)
+        let (la, lb, lc) = (len(sub(pos[b], pos[a])), len(sub(pos[c], pos[a])), len(sub(pos[c], pos[b])));
+        // ... and so is a face two of whose corners are one position (same class: the seam, a pole)
+        let deg = len(fnv) <= 1e-4 * (la * lb).max(la * lc).max(lb * lc) || cls[a] == cls[b] || cls[a] == cls[c] || cls[b] == cls[c];
         let cen = [(pos[a][0] + pos[b][0] + pos[c][0]) / 3.0, (pos[a][1] + pos[b][1] + pos[c][1]) / 3.0, (pos[a][2] + pos[b][2] + pos[c][2]) / 3.0];
         // outward reference: away from the centre (torus: from the nearest point of the major circle)
         let outward = match surf {
@@ -233,12 +256,25 @@ pub fn gen(args: &Args, out: &mut dyn Write) {
             for caps in 1..=3.min(segs + 1) {
                 emit(out, json!({"solid": "capsule", "secs": secs, "segs": segs, "caps": caps, "r": r}));
             }
+            if segs <= 2 {
+                let nl = [1.0, 2.5, 0.25][secs as usize % 3];
+                emit(out, json!({"solid": "crease", "kind": segs - 1, "secs": secs, "r": r, "nl": nl, "lit": secs % 2}));
+            }
             // partial azimuth ranges of the lathe (open surfaces)
             for (a0, a1) in [(0.0, 0.25), (0.0, 0.5), (0.1, 0.9), (0.25, 1.25)] {
                 let nl = [1.0, 2.5, 0.25][(secs + segs) as usize % 3];
                 emit(out, json!({"solid": "lathe", "secs": secs, "segs": segs, "r": r, "az0": a0, "az1": a1, "nl": nl, "lit": (secs % 2)}));
             }
         }
+    }
+    // many sectors: whatever a builder does "every so many sectors" has happened at least once
+    let many: &[u32] = if thorough { &[255, 256, 257, 300, 512, 1000] } else { &[256, 257] };
+    for &secs in many {
+        emit(out, json!({"solid": "sphere", "secs": secs, "segs": 2, "r": 1.0}));
+        emit(out, json!({"solid": "torus", "secs": secs, "segs": 3, "R": 3.0, "r": 1.0}));
+        emit(out, json!({"solid": "cylinder", "secs": secs, "segs": 1, "capped": 1, "r": 0.5}));
+        emit(out, json!({"solid": "cone", "secs": secs, "segs": 1, "capped": 1, "r": 1.0, "r2": 0.0}));
+        emit(out, json!({"solid": "capsule", "secs": secs, "segs": 1, "caps": 1, "r": 1.0}));
     }
     let _ = args.seed;
 }
